@@ -5,7 +5,63 @@ Import ListNotations.
 From Verif Require Import Common.Base Model.Ivf Model.Ogg Proofs.Ogg.
 Open Scope N_scope.
 
+(* lacing: a packet of n bytes gets n/255 entries of 255 and then n mod 255 *)
+Theorem lace_sum : forall n,
+  sumN (lace n) = n /\ Forall (fun s => s <= 255) (lace n) /\ last (lace n) 0 < 255 /\
+  N.of_nat (length (lace n)) = n / 255 + 1.
+Proof. exact lace_sum_all. Qed.
+Print Assumptions lace_sum.
+
 (* the writer's and the reader's table generators produce the same 256 entries *)
 Theorem c33_crc_tables : writer_table = reader_table /\ length writer_table = 256%nat.
 Proof. exact (conj tables_equal writer_table_length). Qed.
 Print Assumptions c33_crc_tables.
+
+(* the reader (checksum on, its own table) accepts every page the writer's page
+   builder produces and returns its fields, segment table and payload *)
+Theorem c33_crc : forall payload segs htype granule serial index data rest,
+  granule < 18446744073709551616 /\ serial < 4294967296 /\ index < 4294967296 /\
+  (length segs <= 255)%nat /\ sumN segs = N.of_nat (length payload) ->
+  page_bytes writer_table payload segs htype granule serial index = Some data ->
+  parse_next_page true (data ++ rest)
+  = Ok (mkRpage (mkPhdr sig_oggs 0 (u8 htype) granule serial index (N.of_nat (length segs)))
+                segs payload, rest).
+Proof. exact parse_written_page. Qed.
+Print Assumptions c33_crc.
+
+(* for every packet, of any size: createPagesForSerial succeeds; reading its
+   pages back (checksum on) and joining the page payloads gives the packet; the
+   lacing values over all its pages are lace(len), so cutting along them yields
+   exactly this one packet *)
+Theorem c33_payload_roundtrip : forall payload htype granule serial index rest,
+  granule < 18446744073709551616 -> serial < 4294967296 -> index < 4294967296 ->
+  exists pages rps,
+    create_pages_for writer_table payload htype granule serial index = Ok pages /\
+    parse_pages (length pages) (flat_map pg_data pages ++ rest) = Ok (rps, rest) /\
+    flat_map rp_payload rps = payload /\
+    flat_map rp_segs rps = lace (N.of_nat (length payload)) /\
+    split_lacing (flat_map rp_segs rps) (flat_map rp_payload rps) [] = ([payload], []).
+Proof. exact payload_roundtrip. Qed.
+Print Assumptions c33_payload_roundtrip.
+
+(* opusPacketSampleCount = RFC 6716 frame size x frame count, refused above
+   120 ms or when malformed, for all 256 TOC bytes and all 256 second bytes *)
+Theorem opus_samples_table : forall toc, toc < 256 ->
+  result_to_option (opus_sample_count [toc]) = rfc6716_samples toc None /\
+  forall b1 rest, b1 < 256 ->
+    result_to_option (opus_sample_count (toc :: b1 :: rest)) = rfc6716_samples toc (Some b1).
+Proof. exact opus_samples_table_all. Qed.
+Print Assumptions opus_samples_table.
+
+(* the reader's parsers invert the writer's header builders *)
+Theorem c33_headers_roundtrip :
+  (forall cm preskip rate, chmap_ok cm -> preskip < 65536 -> rate < 4294967296 ->
+     parse_opus_head (build_id_header cm preskip rate) = Ok (head_of cm preskip rate)) /\
+  (forall t, tags_ok t -> parse_opus_tags (build_comment_header t) = Ok t).
+Proof. exact (conj head_roundtrip tags_roundtrip). Qed.
+Print Assumptions c33_headers_roundtrip.
+
+Example c33_example_tags :
+  tags_ok (mkTags [112; 105; 111; 110] [([84], [120; 61; 121])]) /\
+  chmap_ok (mkChmap 255 3 1 1 [0; 1; 255]).
+Proof. exact example_tags_ok. Qed.
